@@ -205,6 +205,15 @@ Proof.
     rewrite Hinert; [reflexivity|]. apply nth_In. exact Hi_al.
 Qed.
 
+Lemma forallb_filter_id {A} (f : A -> bool) l : forallb f l = true -> filter f l = l.
+Proof. induction l as [|x r IH]; cbn; [reflexivity|]. rewrite andb_true_iff. intros [-> H]. now rewrite IH. Qed.
+
+Lemma In_snd_combine {A B} (ps : list A) : forall (l : list B) v, In v (map snd (combine ps l)) -> In v l.
+Proof.
+  induction ps as [|p r IH]; intros [|h hr] v H; cbn in *; try contradiction.
+  destruct H as [<-|H]; [now left|right; now apply IH].
+Qed.
+
 Section FunLike.
 Variable fs : list fdef.
 Hypothesis Hwf : wf_fdefs fs = true.
@@ -436,5 +445,202 @@ Proof.
     apply okt2_set_w_hd. apply sm_okt2.
     + apply okt2_set_w_hd. apply (forallb_impl (okf fs) (okt2 tb)); [apply okf_okt2|assumption].
     + rewrite Forall_forall in Hargs |- *. intros x Hxin. apply (forallb_impl (arg_tok fs) (okt2 tb)); [apply arg_okt2|now apply Hargs].
+Qed.
+
+(* ---------- specification side ---------- *)
+Definition hmap_more (more : list (tok * list tok)) : list (htok * list htok) :=
+  map (fun ca => (hl0 (fst ca), map hl0 (snd ca))) more.
+Lemma map_flat_more more : map hl0 (flat_more more) = hflat_more (hmap_more more).
+Proof. induction more as [|[c a] r IH]; cbn; [reflexivity|]. now rewrite map_app, IH. Qed.
+Lemma map_snd_hmap more : map snd (hmap_more more) = map (map hl0) (map snd more).
+Proof. unfold hmap_more. rewrite !map_map. reflexivity. Qed.
+
+Lemma sel_combine_in ps : forall acts s v, sel (combine ps acts) s = Some v -> In v acts.
+Proof.
+  induction ps as [|p r IH]; intros [|a acts] s v; cbn; try discriminate.
+  destruct (String.eqb p s); [intros H; injection H as <-; now left|]. intros H. right. eapply IH, H.
+Qed.
+Lemma sel_combine_index ps : forall acts s k i,
+  index_of s ps k = Some i -> List.length acts = List.length ps -> sel (combine ps acts) s = Some (nth (i - k) acts []).
+Proof.
+  induction ps as [|p r IH]; intros [|a acts] s k i; cbn; try discriminate.
+  destruct (String.eqb p s); [intros H _; injection H as <-; now rewrite Nat.sub_diag|].
+  intros H Hl. pose proof (index_of_range _ _ _ _ H) as Hr.
+  rewrite (IH acts s (S k) i H) by lia. replace (i - k) with (S (i - S k)) by lia. reflexivity.
+Qed.
+Lemma sel_combine_none ps : forall acts s k, index_of s ps k = None -> sel (combine ps acts) s = None.
+Proof.
+  induction ps as [|p r IH]; intros [|a acts] s k; cbn; try reflexivity.
+  destruct (String.eqb p s); [discriminate|]. apply IH.
+Qed.
+
+Definition sitem_out (d : nat) (i : sitem) : list htok :=
+  match i with
+  | SToks l => flat_map (ES stb (S d)) (map hl0 l)
+  | SCall t lp a more rp =>
+      match flookup fs (tt t) with
+      | Some (FFun n ps b) =>
+          flat_map (ES stb d)
+            (hset_w (tw t) (hsadd [tt t] (subst_out (combine ps (map (map hl0) (a :: map snd more))) (map btok_of b))))
+      | _ => []
+      end
+  end.
+
+Lemma okd_okh0 t : okd t = true -> okh (hl0 t) = true.
+Proof. intros H. apply okb_okh. now apply okd_okb. Qed.
+
+Lemma arg_inert t : arg_tok fs t = true -> inert stb (hl0 t) = true.
+Proof.
+  intros Ha. destruct (arg_tok_facts t Ha) as (Ho & _ & Hm). unfold inert. rewrite (okd_okh0 t Ho). cbn [andb hl0 lift btok_of hk ht bk bt].
+  change (tkind_eqb (tk t) KId) with (is_id t). destruct (is_id t) eqn:Hid; [|reflexivity]. cbn [negb orb].
+  rewrite slookup2, (Hm eq_refl). reflexivity.
+Qed.
+Lemma arg_hplain t : arg_tok fs t = true -> hplain (hl0 t) = true.
+Proof.
+  intros Ha. destruct (arg_tok_facts t Ha) as (_ & Hp & _). unfold plain_arg in Hp.
+  rewrite !andb_true_iff, !negb_true_iff in Hp. destruct Hp as [[H1 H2] H3].
+  unfold hplain, h_is. cbn [hl0 lift btok_of hk ht bk bt]. unfold is_txt in *. rewrite H1, H2, H3. now rewrite !andb_false_r.
+Qed.
+
+Lemma src_all_hs l : forallb (src_tok fs) l = true -> all_hs stb [] (map hl0 l).
+Proof.
+  intros H x Hx. apply in_map_iff in Hx. destruct Hx as (t & <- & Ht). rewrite forallb_forall in H. specialize (H t Ht).
+  unfold src_tok in H. rewrite andb_true_iff in H. destruct H as [Hf _].
+  split; [reflexivity|]. unfold okf in Hf. rewrite andb_true_iff, negb_true_iff in Hf. destruct Hf as [Ho Hn].
+  split; [now apply okd_okh0|]. change (is_flh stb (hl0 t)) with (is_flb stb (btok_of t)). now rewrite is_flb_funname.
+Qed.
+
+(* the tokens that come out of subst for an invocation all carry the hide set [name] after hsadd *)
+Lemma call_all_hs name w ps hargs b :
+  forallb (okf fs) b = true -> Forall (fun a => forall x, In x a -> hh x = [] /\ okh x = true /\ is_flh stb x = false) hargs ->
+  all_hs stb [name] (hset_w w (hsadd [name] (subst_out (combine ps hargs) (map btok_of b)))).
+Proof.
+  intros Hb Hargs.
+  assert (Hall : forall y, In y (hsadd [name] (subst_out (combine ps hargs) (map btok_of b))) ->
+                           hh y = [name] /\ okh y = true /\ is_flh stb y = false).
+  { intros y Hy. unfold hsadd in Hy. apply in_map_iff in Hy. destruct Hy as (z & <- & Hz). cbn [hh hk ht].
+    assert (Hz' : hh z = [] /\ okh z = true /\ is_flh stb z = false).
+    { clear w. induction b as [|t r IH]; cbn [map subst_out] in Hz; [contradiction|].
+      cbn [forallb] in Hb. apply andb_true_iff in Hb. destruct Hb as [Ht Hr].
+      destruct (Spec.C03.param (combine ps hargs) (btok_of t)) as [a|] eqn:Hp.
+      - apply in_app_or in Hz. destruct Hz as [Hz|Hz]; [|now apply IH].
+        unfold Spec.C03.param in Hp. destruct (tkind_eqb (bk (btok_of t)) KId); [|discriminate].
+        apply sel_combine_in in Hp. rewrite Forall_forall in Hargs. specialize (Hargs a Hp).
+        destruct a as [|y0 r0]; cbn [hset_w] in Hz; [contradiction|]. destruct Hz as [<-|Hz]; [|apply Hargs; now right].
+        destruct (Hargs y0 (or_introl eq_refl)) as (H1 & H2 & H3). repeat split; assumption.
+      - destruct Hz as [<-|Hz]; [|now apply IH]. split; [reflexivity|].
+        unfold okf in Ht. rewrite andb_true_iff, negb_true_iff in Ht. destruct Ht as [Ho Hn].
+        split; [now apply okd_okh0|]. change (is_flh stb (lift [] (btok_of t))) with (is_flb stb (btok_of t)). now rewrite is_flb_funname. }
+    destruct Hz' as (H1 & H2 & H3). rewrite H1. repeat split; assumption. }
+  intros x Hx. destruct (hsadd [name] (subst_out (combine ps hargs) (map btok_of b))) as [|y r] eqn:E; cbn [hset_w] in Hx; [contradiction|].
+  destruct Hx as [<-|Hx]; [|apply Hall; now right]. destruct (Hall y (or_introl eq_refl)) as (H1 & H2 & H3). repeat split; assumption.
+Qed.
+
+Lemma in_snames k m : slookup stb k = Some m -> In k (snames stb).
+Proof. apply slookup_In. Qed.
+
+Lemma subst_out_no_pm ap b :
+  (forall t, In t b -> String.eqb (bt t) "" = false) ->
+  (forall a, In a (map snd ap) -> forall x, In x a -> String.eqb (ht x) "" = false) ->
+  filter (fun t => negb (is_pm t)) (subst_out ap b) = subst_out ap b.
+Proof.
+  intros Hb Ha. apply forallb_filter_id. rewrite forallb_forall. intros x Hx.
+  assert (Hne : String.eqb (ht x) "" = false).
+  { induction b as [|t r IH]; cbn [subst_out] in Hx; [contradiction|].
+    destruct (Spec.C03.param ap t) as [a|] eqn:Hp.
+    - apply in_app_or in Hx. destruct Hx as [Hx|Hx]; [|apply IH; [intros; apply Hb; now right|assumption]].
+      unfold Spec.C03.param in Hp. destruct (tkind_eqb (bk t) KId); [|discriminate].
+      assert (Hin : In a (map snd ap)).
+      { clear -Hp. induction ap as [|[k v] r IH]; cbn in *; [discriminate|]. destruct (String.eqb k (bt t)); [injection Hp as <-; now left|right; now apply IH]. }
+      destruct a as [|y0 r0]; cbn [hset_w] in Hx; [contradiction|]. destruct Hx as [<-|Hx]; [|apply (Ha _ Hin); now right].
+      cbn [ht]. apply (Ha _ Hin). now left.
+    - destruct Hx as [<-|Hx]; [cbn; apply Hb; now left|apply IH; [intros; apply Hb; now right|assumption]]. }
+  unfold is_pm. rewrite Hne. now rewrite andb_false_r.
+Qed.
+
+Definition max_arg_len (al : list (list tok)) : nat := list_max (map (@List.length tok) al).
+Lemma max_arg_len_ge al a : In a al -> List.length a <= max_arg_len al.
+Proof.
+  intros H. unfold max_arg_len. pose proof (list_max_le (map (@List.length tok) al) (list_max (map (@List.length tok) al))) as [Hle _].
+  specialize (Hle (le_n _)). rewrite Forall_forall in Hle. apply Hle. now apply in_map.
+Qed.
+
+Lemma S_item d i :
+  wf_src i -> List.length (snames stb) <= S d ->
+  exists n m, forall f, m <= f -> forall ys r, expandS stb f ys = Ok r ->
+    expandS stb (n + f) (map hl0 (stoks i) ++ ys) = Ok (sitem_out d i ++ r).
+Proof.
+  intros [Hokd Hi] Hlen. destruct i as [l|t lp a more rp]; cbn [stoks sitem_out].
+  - (* plain tokens *)
+    destruct (sscan_all stb HSobj2 (S d) (map hl0 l) [] (src_all_hs l Hi)) as (n & Hn).
+    { repeat split; [constructor|intros x []|cbn; lia]. }
+    exists n, 0. intros f _ ys r Hr. now apply Hn.
+  - destruct Hi as (Hid & Hdef & Hlp & Hrp & Ha & Hmore & n0 & ps & b & Hfl & Hlps).
+    rewrite Hfl.
+    destruct (fun_facts n0 ps b (flookup_In _ _ _ Hfl)) as (Hb & Hps & Hnd & Hva & Hno & Hpar & Hne).
+    pose proof (flookup_name _ _ _ Hfl) as Hname. cbn [fname] in Hname.
+    assert (Hto : okd t = true) by (cbn [stoks forallb] in Hokd; apply andb_true_iff in Hokd; tauto).
+    set (al := a :: map snd more).
+    assert (Hargs : Forall (fun x => forallb (arg_tok fs) x = true) al).
+    { constructor; [assumption|]. rewrite Forall_forall in Hmore |- *. intros x Hxin. apply in_map_iff in Hxin.
+      destruct Hxin as (ca & <- & Hca). now apply Hmore. }
+    set (hargs := map (map hl0) al). set (ap := combine ps hargs). set (body := map btok_of b).
+    assert (Hlook : slookup stb (tt t) = Some (SFun ps false body)) by (rewrite slookup2, Hfl; reflexivity).
+    (* the substituted replacement list is scanned under the hide set [name] *)
+    destruct (sscan_all stb HSobj2 d (hset_w (tw t) (hsadd [tt t] (subst_out ap body))) [tt t]) as (n1 & Hn1).
+    { apply call_all_hs; [assumption|]. rewrite Forall_forall. intros ha Hha. unfold hargs in Hha. apply in_map_iff in Hha.
+      destruct Hha as (x & <- & Hx). intros y Hy. apply in_map_iff in Hy. destruct Hy as (z & <- & Hz).
+      rewrite Forall_forall in Hargs. pose proof (Hargs x Hx) as Hxa. rewrite forallb_forall in Hxa. specialize (Hxa z Hz).
+      destruct (arg_tok_facts z Hxa) as (Hoz & _ & Hmz). split; [reflexivity|]. split; [now apply okd_okh0|].
+      change (is_flh stb (hl0 z)) with (is_flb stb (btok_of z)). rewrite is_flb_funname.
+      destruct (is_id z) eqn:Hidz; [|reflexivity]. unfold is_funname. now rewrite (Hmz eq_refl). }
+    { repeat split.
+      - constructor; [intros []|constructor].
+      - intros x [<-|[]]. eapply in_snames, Hlook.
+      - cbn [List.length]. lia. }
+    exists (S n1), (S (max_arg_len al)). intros f Hf ys r Hr.
+    cbn [map]. rewrite !map_app, map_flat_more. cbn [map app plus].
+    replace ((map hl0 a ++ hflat_more (hmap_more more) ++ [hl0 rp]) ++ ys)
+      with (map hl0 a ++ hflat_more (hmap_more more) ++ hl0 rp :: ys) by (now rewrite <- !app_assoc).
+    rewrite (X_call stb (n1 + f) (hl0 t) (hl0 lp) (map hl0 a) (hmap_more more) (hl0 rp) ys ps body ap (subst_out ap body)).
+    + cbn [hl0 lift btok_of hw ht]. now apply Hn1.
+    + now apply okd_okh0.
+    + exact Hid.
+    + reflexivity.
+    + reflexivity.
+    + exact Hlook.
+    + exact Hlp.
+    + rewrite forallb_forall. intros x Hx. apply in_map_iff in Hx. destruct Hx as (z & <- & Hz).
+      apply arg_hplain. rewrite forallb_forall in Ha. now apply Ha.
+    + unfold hmore_ok, hmap_more. rewrite Forall_forall in Hmore |- *. intros ca Hca. apply in_map_iff in Hca.
+      destruct Hca as (ca0 & <- & Hca0). cbn [fst snd]. destruct (Hmore ca0 Hca0) as [Hc Hal]. split; [exact Hc|].
+      rewrite forallb_forall. intros x Hx. apply in_map_iff in Hx. destruct Hx as (z & <- & Hz).
+      apply arg_hplain. rewrite forallb_forall in Hal. now apply Hal.
+    + exact Hrp.
+    + unfold body. destruct b as [|t0 r0]; [reflexivity|]. cbn [map starts_with_cat].
+      cbn [forallb] in Hno. apply andb_true_iff in Hno. destruct Hno as [Ht0 _]. unfold no_ops in Ht0.
+      rewrite andb_true_iff, !negb_true_iff in Ht0. destruct Ht0 as [_ H2]. unfold b_is, is_txt in *. cbn [btok_of bt]. rewrite H2. apply andb_false_r.
+    + unfold bind_args. destruct ps as [|p0 ps']; [contradiction|].
+      rewrite map_snd_hmap. change (map hl0 a :: map (map hl0) (map snd more)) with hargs.
+      replace (Nat.eqb (List.length hargs) (List.length (p0 :: ps'))) with true; [reflexivity|].
+      symmetry. apply Nat.eqb_eq. unfold hargs, al. rewrite map_length. cbn [List.length]. rewrite map_length. exact (eq_sym Hlps).
+    + unfold subst_all. rewrite (subst_funlike (expandS stb (n1 + f)) ap body []).
+      * cbn [app]. rewrite subst_out_no_pm; [reflexivity| |].
+        -- intros x Hx. unfold body in Hx. apply in_map_iff in Hx. destruct Hx as (z & <- & Hz). cbn [btok_of bt]. now apply Hne.
+        -- intros ha Hha x Hx. unfold ap in Hha.
+           assert (Hin : In ha hargs) by (eapply In_snd_combine, Hha).
+           unfold hargs in Hin. apply in_map_iff in Hin. destruct Hin as (xa & <- & Hxa).
+           apply in_map_iff in Hx. destruct Hx as (z & <- & Hz). cbn [hl0 lift btok_of ht bt].
+           rewrite Forall_forall in Hargs. pose proof (Hargs xa Hxa) as Hal. rewrite forallb_forall in Hal.
+           destruct (arg_tok_facts z (Hal z Hz)) as (Hoz & _ & _). unfold okd, okb in Hoz.
+           rewrite !andb_true_iff, !negb_true_iff in Hoz. cbn [btok_of bt] in Hoz. tauto.
+      * unfold body. rewrite forallb_forall. intros x Hx. apply in_map_iff in Hx. destruct Hx as (z & <- & Hz).
+        rewrite forallb_forall in Hno. specialize (Hno z Hz). unfold no_ops, nohash, is_txt in *. cbn [btok_of bt]. exact Hno.
+      * intros t0 a0 Ht0 Hp. unfold Spec.C03.param in Hp. destruct (tkind_eqb (bk t0) KId); [|discriminate].
+        apply sel_combine_in in Hp. unfold hargs in Hp. apply in_map_iff in Hp. destruct Hp as (xa & <- & Hxa).
+        apply keep_all.
+        -- rewrite forallb_forall. intros x Hx. apply in_map_iff in Hx. destruct Hx as (z & <- & Hz).
+           apply arg_inert. rewrite Forall_forall in Hargs. pose proof (Hargs xa Hxa) as Hal. rewrite forallb_forall in Hal. now apply Hal.
+        -- rewrite map_length. pose proof (max_arg_len_ge al xa Hxa). lia.
 Qed.
 End FunLike.
